@@ -155,8 +155,23 @@ func stressDescription(e *eng) {
 			g.Description()
 			g.Status(true, nil)
 			group.GetPublic(nil)
-			g.GetChatHistory()
+			for _, h := range g.GetChatHistory() {
+				// read what the join replay reads (unlocked): must be a private copy
+				_ = h.Id + h.Source + h.Kind
+				_ = h.Time
+			}
 			g.UserExists("a")
+		}
+	}()
+	wg.Add(1)
+	go func() {
+		defer wg.Done()
+		u := "w"
+		for i := 0; time.Now().Before(stop); i++ {
+			g.AddToChatHistory(fmt.Sprint(i), "s", &u, time.Now(), "", "v")
+			if i%97 == 0 {
+				g.ClearChatHistory("", "s")
+			}
 		}
 	}()
 	go func() {
